@@ -14,7 +14,9 @@ run left in those output directories, the result is the same as packaging into a
 
 Readings fixed here:
 * *selected*: invoked from a buildpack's directory — that buildpack; otherwise, invoked from the workspace root — every
-  libcnb.rs and composite buildpack of the workspace. From any other directory the property says nothing.
+  libcnb.rs and composite buildpack of the workspace. From any other directory the property says nothing. The selection
+  is a matter of the workspace and the invocation directory only: `selected` takes no `Config`, so no `--package-dir`
+  (be it the workspace root, an ancestor of buildpack directories, a buildpack's own directory …) can change it.
 * *dependencies*: the buildpacks named by `libcnb:<id>` references in a composite's `package.toml`, transitively
   (`Spec.Topo.Reachable`).
 * *output directory* of a buildpack: `<package dir>/<target triple>/<debug|release>/<id with '/' replaced by '_'>`; the
@@ -24,7 +26,8 @@ Readings fixed here:
 * *normalised*: as in C14 — a `libcnb:<id>` reference becomes (an absolute path denoting) the output directory of `id`, a
   relative path becomes an absolute, dot-free path denoting the same directory, anything else is copied.
 * *the same as packaging into an empty directory*: below an output directory nothing but the listed entries exists.
-* *exactly*: nothing else below the package directory changes.
+* *exactly*: nothing else below the package directory changes — in particular not the buildpack sources, when the
+  package directory is or holds (part of) the source tree.
 
 Two layers: `Prop`s over a tree seen as a partial map (used by the theorems), and an executable judge of an observed run
 (used by the driver on the implementation's observations).
@@ -144,12 +147,15 @@ def undetermined (ws : Workspace) (ids : List String) : List String :=
 
 /-! ### the executable judge of an observed run -/
 
-/-- what was observed: exit status class, stdout lines, the tree below the package directory before and after -/
+/-- what was observed: exit status class, stdout lines, the tree below the package directory before and after (without
+the workspace sources, which are compared on their own: `srcChanged` names a source entry that is no longer what it was
+before the run) -/
 structure Observed where
   ok : Bool
   stdout : List Str
   pre : FS
   post : FS
+  srcChanged : Option String
 
 def entry (t : FS) (p : Path) : Option Node :=
   match t.find? (fun e => e.1 == p) with
@@ -249,7 +255,11 @@ def judge (ws : Workspace) (inv : Str) (cfg : Config) (o : Observed) : Option St
   | none => if o.stdout.isEmpty then none else some "nothing is selected from this directory, yet something was printed"
   | some roots =>
     let cl := closure ws roots
-    if !(danglingRefs ws).isEmpty then
+    -- a workspace without any libcnb.rs / composite buildpack (outside the quantifier: 1-5 libcnb.rs buildpacks): nothing is
+    -- selected, so nothing may be printed; the property does not say how such a run ends
+    if roots.isEmpty then
+      (if o.stdout.isEmpty then none else some "the workspace holds no buildpack to select, yet something was printed")
+    else if !(danglingRefs ws).isEmpty then
       if o.ok then some ("a libcnb: reference names no buildpack of the workspace (" ++
         String.ofList ((danglingRefs ws).headD []) ++ ") but packaging succeeded")
       else if o.stdout.isEmpty then none else some "a failed run printed output directories"
@@ -260,6 +270,8 @@ def judge (ws : Workspace) (inv : Str) (cfg : Config) (o : Observed) : Option St
         else if o.stdout.isEmpty then none else some "a failed run printed output directories"
       | [] =>
         if !o.ok then some "packaging failed although every selected buildpack and dependency can be packaged"
+        else if o.srcChanged.isSome then
+          some ("the workspace source " ++ o.srcChanged.getD "" ++ " is outside the output directories, yet it changed")
         else
           let bps := cl.filterMap (fun id => (packables ws).find? (fun bp => bp.id == id))
           match bps.findSome? (judgeDir ws inv cfg o.post) with
